@@ -684,6 +684,11 @@ class Line(Component):
         self.remaining_outage_time = Time(0)
 
         self.not_fail()
+        self.reset_load_flow_data()
+        # Ordinary lines are in service, backup lines are out of service
+        # (their disconnectors are opened by Disconnector.reset_status)
+        if not self.is_backup:
+            self.connect()
         if save_flag:
             self.initialize_history()
 
